@@ -211,8 +211,18 @@ func (a *aclRecordBuilder) BuildBatchRequest(payload BatchRequestPayload) (batch
 		}
 		contentList = append(contentList, content)
 	}
+	// additions and approvals get the new read key only if this record really rotates it (a removal);
+	// otherwise they must get the current one, which the builders pick when given nil
+	var (
+		newMetadataKey crypto.PubKey
+		newReadKey     crypto.SymKey
+	)
+	if len(payload.Removals.Identities) > 0 {
+		newMetadataKey = payload.Removals.Change.MetadataKey.GetPublic()
+		newReadKey = payload.Removals.Change.ReadKey
+	}
 	if len(payload.Additions) > 0 {
-		content, err = a.buildAccountsAdd(AccountsAddPayload{Additions: payload.Additions}, payload.Removals.Change.MetadataKey.GetPublic(), payload.Removals.Change.ReadKey)
+		content, err = a.buildAccountsAdd(AccountsAddPayload{Additions: payload.Additions}, newMetadataKey, newReadKey)
 		if err != nil {
 			return
 		}
@@ -226,7 +236,7 @@ func (a *aclRecordBuilder) BuildBatchRequest(payload BatchRequestPayload) (batch
 		contentList = append(contentList, content)
 	}
 	for _, acc := range payload.Approvals {
-		content, err = a.buildRequestAccept(acc, payload.Removals.Change.ReadKey)
+		content, err = a.buildRequestAccept(acc, newReadKey)
 		if err != nil {
 			return
 		}
